@@ -6,6 +6,7 @@ sys.path.insert(0, os.path.dirname(os.path.dirname(os.path.abspath(__file__))))
 os.environ["VERIF_NO_INLINE"] = "1"
 from sa import facts as F
 names = set()
+roots = set()
 for feats in (None, "pcre2"):
     try:
         fb = F.load(F.REPO, features=feats)
@@ -13,6 +14,14 @@ for feats in (None, "pcre2"):
         print("configuration %s not extracted: %s" % (feats, e))
         continue
     names |= {p for p in fb.fns if "{closure" not in p}
+    # functions in which a local closure is called by name (`let f = |..| ..; f(x)`): a function outside this list that
+    # does so got the closure from a refactoring, and the closure's body is read where it is called
+    for p, f in fb.fns.items():
+        for c in f.calls():
+            r = c.func.get("resolved") or ""
+            if c.path.startswith("core::ops::function::Fn") and "{closure" in r:
+                roots.add(r.split("::{closure")[0])
 names = sorted(names)
 json.dump(names, open(os.path.join(os.path.dirname(os.path.dirname(os.path.abspath(__file__))), "sa", "baseline_fns.json"), "w"), indent=0)
-print("baseline functions:", len(names))
+json.dump(sorted(roots), open(os.path.join(os.path.dirname(os.path.dirname(os.path.abspath(__file__))), "sa", "baseline_closure_calls.json"), "w"), indent=0)
+print("baseline functions:", len(names), "functions calling a local closure by name:", len(roots))
